@@ -118,8 +118,18 @@ def run(ctx, spec, out):
     out.extra_cov["worlds"] = nworlds
 
 
+OPTIONAL = {"text": None}
+
+
 def observe(h, listen, conns):
     ids = []
+    if OPTIONAL["text"] is None:
+        # the columns a backend only has with certain capabilities: what a kept peer found out about its backend when it
+        # connected must survive the reload
+        cols = [c["name"] for c in h.schema.cols("hosts") if c.get("optional") and c["storage"] == "LocalStore"]
+        OPTIONAL["text"] = "GET hosts\nColumns: peer_key name %s\nOutputFormat: wrapped_json\n\n" % " ".join(cols)
+    for l in listen[:1]:
+        ids.append(h.both({"op": "dquery", "listener": l, "text": OPTIONAL["text"], "optimize": True}))
     for l in listen:
         ids.append(h.query_d(l, SITES) if hasattr(h, "query_d") else h.both({"op": "dquery", "listener": l, "text": SITES, "optimize": True}))
         ids.append(h.both({"op": "dquery", "listener": l, "text": HOSTS, "optimize": True}))
